@@ -16,6 +16,9 @@ EXTENDS TraceBase
 
 VARIABLES l, bad, drift, holder
 
+\* objects are told apart by pool and address: a lazy container dropped without Close is freed by the collector and its
+\* address may come back as an object of ANOTHER pool (StreamReader and lazy list share a size class)
+Obj(e) == e.kind \o "@" \o e.obj
 HeldBy(o) == IF o \in DOMAIN holder THEN holder[o] ELSE 0          \* 0 = in the pool / never seen
 
 Checks(e) ==
@@ -23,10 +26,10 @@ Checks(e) ==
          \* lazy containers may legitimately be dropped without Close (then the collector frees them and
          \* the address can come back as a new object), so for them double holding is caught at the
          \* next put (put-by-the-holder); readers and writers are always returned explicitly
-         { <<"object-has-one-holder", e.kind \in {"lazylist", "lazymap"} \/ HeldBy(e.obj) = 0>>,
+         { <<"object-has-one-holder", e.kind \in {"lazylist", "lazymap"} \/ HeldBy(Obj(e)) = 0>>,
            <<"object-comes-clean-from-pool", e.clean>> }
     [] e.op = "c18ev" /\ e.ev = "put" ->
-         { <<"put-by-the-holder", HeldBy(e.obj) = e.g>>,
+         { <<"put-by-the-holder", HeldBy(Obj(e)) = e.g>>,
            <<"fields-reset-before-put", e.clean>> }
     [] e.op = "c18res" -> { <<"result-equals-sequential-result", e.base = e.conc>>,
                             \* a destination that fails does so with an error private to one operation: it shows up in no other result
@@ -45,8 +48,8 @@ Next == /\ l <= Len(Trace)
            /\ bad' = bad \cup Tag(l, Failed(Checks(e)))
            /\ holder' = IF Has(e, "canary") THEN holder
                         ELSE IF e.op = "c18round" THEN << >>
-                        ELSE IF e.op = "c18ev" /\ e.ev = "get" THEN (e.obj :> e.g) @@ holder
-                        ELSE IF e.op = "c18ev" /\ e.ev = "put" THEN (e.obj :> 0) @@ holder
+                        ELSE IF e.op = "c18ev" /\ e.ev = "get" THEN (Obj(e) :> e.g) @@ holder
+                        ELSE IF e.op = "c18ev" /\ e.ev = "put" THEN (Obj(e) :> 0) @@ holder
                         ELSE holder
         /\ UNCHANGED drift
 Spec == Init /\ [][Next]_<<l, bad, drift, holder>>
